@@ -50,6 +50,13 @@ def make(rnd, k):
             driver += [['gennew', j, 'f', a, kw]] + [['next', j]] * (len(body) // 2 + 1)
         else:
             driver.append(['call', 'f', a, kw])
+    if kind == 'gen' and rnd.random() < .3:
+        # the switch is turned off and on again around one step of a running generator: once contracts are enabled again every
+        # value still has to pass post / ensure
+        later = [i for i, a in enumerate(driver) if a[0] == 'next' and i > 0 and driver[i - 1][0] == 'next']
+        if later:
+            i = rnd.choice(later)
+            driver[i:i + 1] = [['switch', 'disable'], driver[i], ['switch', 'enable']]
     funs = [{'name': 'f', 'kind': kind, 'sig': fsig, 'stack': stack, 'body': body}]
     if any(p[2] is not None and 'i' in p[2] for p in fsig) and rnd.random() < .25:
         # a second function made from the same `def` (it shares the code object) with other default values, as a factory would make it
@@ -118,8 +125,12 @@ def monitor(sc, obs):
         return [('harness/observation error: ' + str(obs)[:200], None)]
     owner = {a[1]: a[2] for a in sc['driver'] if a[0] == 'gennew'}
     out = []
+    enabled, flags = True, []
+    for a in sc['driver']:
+        if a[0] == 'switch': enabled = a[1] in ('enable', 'reset')
+        flags.append(enabled)
     for f in sc['funs']:
-        mine = [(a, act) for a, act in zip(sc['driver'], acts)
+        mine = [(a + [{'enabled': en}] if not en else a, act) for a, act, en in zip(sc['driver'], acts, flags)
                 if (a[0] == 'call' and a[1] == f['name']) or (a[0] == 'gennew' and a[2] == f['name']) or (a[0] == 'next' and owner.get(a[1]) == f['name'])]
         out += monitor_one(f, mine)
     return out
@@ -132,6 +143,13 @@ def monitor_one(f, pairs):
     for a, act in pairs:
         if a[0] == 'gennew':
             gens[a[1]] = {'args': a[3], 'kws': a[4], 'idx': 0, 'dead': False, 'started': False}
+            continue
+        if isinstance(a[-1], dict) and a[-1].get('enabled') is False:
+            # contracts are switched off: nothing is claimed about this step (C07's subject); keep track of where the generator is
+            if a[0] == 'next':
+                g = gens[a[1]]
+                if act.kind == 'Y': g['idx'] += 1; g['started'] = True
+                else: g['dead'] = True; g['tag'] = 'body_not_started'
             continue
         if a[0] == 'next':
             g = gens[a[1]]; args, kws = g['args'], g['kws']
